@@ -3,6 +3,6 @@ EXTENDS HandshakeMsg, Json
 DTReal  == {-31, -30, -1, 0, 1, 30, 31}
 VDTReal == {-121, -120, -1, 0, 1, 120, 121}
 Export == state # "waiting" =>
-   PrintT("REPLAY " \o ToJson([k |-> "msg", kind |-> msg.kind, dts |-> msg.dts, typ |-> msg.typ, echo |-> msg.echo,
+   PrintT("REPLAY " \o ToJson([k |-> "msg", kind |-> msg.kind, dts |-> msg.dts, ext |-> msg.ext, typ |-> msg.typ, echo |-> msg.echo,
                                auth |-> msg.auth, expect |-> IF state = "delivered" THEN "accept" ELSE "reject"]))
 =============================================================================
